@@ -4,29 +4,23 @@ TEXT): the EXTENT of the i-th top-level form of `programText sts layout`, and th
 positions the lexer gives to the tokens (`FrontSpec.locate`, `all_render_located`) and the reader
 gives to the data (`C15.reader_locs_from_tokens`) to these extents.
 
-IMPORT NOTE.  `RuschmProofs/C17More.lean` / `ProgramTextLemmas.lean` cannot be imported together with
-`RuschmProofs/C15.lean`: `ProgramTextLemmas` imports `LibMoreLemmas`, which declares
-`Ruschm.ExportSpec.loc` (LibMoreLemmas.lean:329), and `RuschmSpec/Loc.lean:126` (imported by C15)
-declares the same name (same definition) — Lean refuses the second import.  The FIRST SECTION below is
-therefore a VERBATIM COPY (`sed -n 28,229p; 254,312p; 473,480p`, and `353,374p; 506,511p; 533,538p; 551,564p`) of the text-level vocabulary of
-`ProgramTextLemmas.lean` — `runStmts`, `printStmt`, `okStmt`, `formsToks`, `formsText`, `programToks`,
-`programText`, `PrintsAs`, `ReadsAs` and the lemmas that do not need `LibMoreLemmas` — placed in the
-namespace `Ruschm.TextExtent` instead of `Ruschm.ProgramText`.  The definitions are character by
-character those of `ProgramTextLemmas.lean`; once one of the two `ExportSpec.loc` is renamed, the copy
-can be replaced by `import RuschmProofs.ProgramTextLemmas` + `open Ruschm.ProgramText`.
+The text-level vocabulary — `runStmts`, `printStmt`, `okStmt`, `formsToks`, `formsText`, `programToks`,
+`programText`, `PrintsAs`, `ReadsAs`, `CoreShape`, `astInner`, `astPost` — is THE ONE of
+`ProgramTextLemmas.lean` (namespace `Ruschm.ProgramText`, opened here), i.e. the one `C17More.lean`
+speaks about.
 
-Vocabulary defined here (second section):
+Vocabulary defined here:
 * `posLt` / `posLe`  — the order of positions in a text: by line, then by column;
 * `textThrough ts l` — the text `a₀ t₁ a₁ … tₙ` up to and including the last token of `ts` (the
                        prefix of `Text.interleave ts l` that ends with the last token);
 * `extent sts layout i` — the pair (position at which the first token of form `i` starts, cursor
                        after its last token), both as `Text.advs` of a prefix of the program text;
-* `Within ext l`     — `ext.1 < l ≤ ext.2`: `l` is the cursor after a non-empty piece of the form.
+* `Within ext l`     — `ext.1 < l ≤ ext.2`: `l` is the cursor after a non-empty piece of the form;
+* `NoLib st.rlocs`  — (`LibNamePosLemmas.lean`) the state holds no position in the role of a library name.
 -/
 import RuschmProofs.C15
-import RuschmProofs.C17
-import RuschmProofs.C01More
-import RuschmProofs.C12More
+import RuschmProofs.ProgramTextLemmas
+import RuschmProofs.LibNamePosLemmas
 
 set_option linter.unusedSimpArgs false
 set_option linter.unusedVariables false
@@ -34,332 +28,8 @@ set_option linter.unusedVariables false
 namespace Ruschm.TextExtent
 open Ruschm Ruschm.Interp Ruschm.Front Ruschm.FrontSpec Ruschm.Xform Ruschm.CoreSyntax Ruschm.Text
 open Ruschm.Lex (adv)
-
-/-! # verbatim copy of the vocabulary of `ProgramTextLemmas.lean` (see the import note) -/
-
-/-! ## vocabulary -/
-
-/-- The statements one after another, each evaluated by `eval_ast` from the state its predecessor
-left; the FIRST error ends the run (nothing after it is evaluated) and is returned with the state
-reached; otherwise the value of the last statement (`last` if there is none). -/
-def runStmts (fuel : Nat) : State → List Statement → Option Value → Except SErr (Option Value) × State
-  | st, [], last => (.ok last, st)
-  | st, s :: ss, _ =>
-    match evalAst fuel st s with
-    | (.error e, st') => (.error e, st')
-    | (.ok v, st') => runStmts fuel st' ss v
-
-/-- every statement succeeds, each from the state its predecessor left -/
-def AllOk (fuel : Nat) : State → List Statement → Prop
-  | _, [] => True
-  | st, s :: ss => ∃ v st', evalAst fuel st s = (.ok v, st') ∧ AllOk fuel st' ss
-
-/-- the printed form of a program statement: `(import set …)` for an import declaration, the
-printed core form (`CoreSyntax.renderStmt`) for an expression or a definition -/
-def printStmt : Statement → Datum
-  | .importDecl sets _ => ImportSyntax.renderImport sets
-  | .expr e => renderStmt (.expr e)
-  | .definition d => renderStmt (.definition d)
-  | _ => .nil none
-
-/-- the side condition: a core expression or definition in which no operator is a variable spelled
-like a special-form keyword or a macro keyword (`CoreSyntax.coreStmt`), or an import declaration
-whose import sets can be written (`ImportSyntax.WF`: the library name starts with an identifier other
-than `only`/`except`/`prefix`/`rename`) -/
-def okStmt (isMacro : String → Bool) : Statement → Prop
-  | .importDecl sets _ => ∀ t ∈ sets, ImportSyntax.WF t
-  | .expr e => coreStmt isMacro (.expr e) = true
-  | .definition d => coreStmt isMacro (.definition d) = true
-  | _ => False
-
-/-- the text of a sequence of data: their canonical written forms (`Syn.ofDatum`), one after the
-other, under a layout (blanks, line ends and comments before, between and after the tokens) -/
-def formsToks (ps : List Datum) : List Token := Syn.toksL (ps.map Syn.ofDatum)
-
-def formsText (ps : List Datum) (layout : List (List Char)) : List Char :=
-  interleave (formsToks ps) layout
-
-/-- the tokens that write the printed forms of the statements down, one form after the other -/
-def programToks (sts : List Statement) : List Token := formsToks (sts.map printStmt)
-
-/-- the program text: the tokens of the printed forms under a layout (blanks, line ends and
-comments before, between and after the tokens) -/
-def programText (sts : List Statement) (layout : List (List Char)) : List Char :=
-  formsText (sts.map printStmt) layout
-
-/-- `PrintsAs syn ps sts`: the data `ps` are a way of WRITING the statements `sts` in the syntax
-environment `syn`: they carry no locations, and the transformer (with the fuel the interpreter uses)
-turns each of them into the corresponding statement (location-free), leaving `syn` as it was. -/
-def PrintsAs (syn : SynEnv) : List Datum → List Statement → Prop
-  | [], [] => True
-  | p :: ps, s :: ss =>
-    (p.strip = p ∧ toStatement (xformFuel p) p syn = (.ok s.unloc, syn)) ∧ PrintsAs syn ps ss
-  | _, _ => False
-
-/-- `ReadsAs syn ds sts`: datum by datum, the transformer (with the fuel the interpreter uses) run
-in the syntax environment `syn` turns `ds` into statements that are `sts` up to locations, and
-leaves `syn` as it was. -/
-def ReadsAs (syn : SynEnv) : List Datum → List Statement → Prop
-  | [], [] => True
-  | d :: ds, s :: ss =>
-    (∃ s', toStatement (xformFuel d) d syn = (.ok s', syn) ∧ s'.unloc = s.unloc) ∧ ReadsAs syn ds ss
-  | _, _ => False
-
-/-! ## a core statement is a program statement -/
-
-theorem okStmt_of_core {M : String → Bool} {s : Statement} (h : coreStmt M s = true) : okStmt M s := by
-  cases s <;> first | exact h | simp [coreStmt] at h
-
-theorem printStmt_of_core {M : String → Bool} {s : Statement} (h : coreStmt M s = true) :
-    printStmt s = renderStmt s := by
-  cases s <;> first | rfl | simp [coreStmt] at h
-
-/-! ## the printed forms carry no location, and are read back -/
-
-theorem strip_renderSet (t : ImportSet) (h : ImportSyntax.WF t) :
-    (ImportSyntax.renderSet t).strip = ImportSyntax.renderSet t := by
-  have := ImportSyntax.strip_of_accepts_strict (ImportSyntax.accepts_render t h)
-  rw [ImportSyntax.renderSet_unloc, ImportSyntax.renderSet_unloc] at this
-  exact this
-
-theorem strip_renderImport (sets : List ImportSet) (h : ∀ t ∈ sets, ImportSyntax.WF t) :
-    (ImportSyntax.renderImport sets).strip = ImportSyntax.renderImport sets := by
-  unfold ImportSyntax.renderImport ImportSyntax.lst
-  rw [Datum.strip_ofList]
-  congr 1
-  simp only [List.map_cons, List.map_map]
-  congr 1
-  apply List.map_congr_left
-  intro t ht
-  exact strip_renderSet t (h t ht)
-
-theorem strip_printStmt {M : String → Bool} (s : Statement) (h : okStmt M s) :
-    (printStmt s).strip = printStmt s := by
-  cases s with
-  | importDecl sets l => exact strip_renderImport sets h
-  | expr e => exact C01More.render_location_free (.expr e)
-  | definition d => exact C01More.render_location_free (.definition d)
-  | syntaxDef _ _ _ => exact h.elim
-  | libraryDef _ _ _ => exact h.elim
-
-/-- a located datum whose location-free form is transformed into `s0` (environment unchanged) is
-transformed into a statement that is `s0` up to locations (environment unchanged) -/
-theorem located_of_stripped {d d0 : Datum} {syn : SynEnv} {s0 : Statement} (hd : d.strip = d0)
-    (h : toStatement (xformFuel d0) d0 syn = (.ok s0, syn)) :
-    ∃ s', toStatement (xformFuel d) d syn = (.ok s', syn) ∧ s'.unloc = s0 := by
-  have h1 := toStatement_strip (xformFuel d) d syn
-  rw [hd] at h1
-  have hf : xformFuel d = xformFuel d0 := by rw [← hd, xformFuel_strip]
-  rw [hf] at h1 ⊢
-  rw [h] at h1
-  generalize toStatement (xformFuel d0) d syn = x at h1
-  obtain ⟨r, s'⟩ := x
-  simp only [Prod.mk.injEq] at h1
-  obtain ⟨h2, rfl⟩ := h1
-  cases r with
-  | error er => simp at h2
-  | ok st' => exact ⟨st', rfl, by simpa using h2.symm⟩
-
-/-- the printed form of a program statement is a way of writing it -/
-theorem printed_prints (syn : SynEnv) (s : Statement) (hok : okStmt (C01More.macroOf syn) s) :
-    (printStmt s).strip = printStmt s ∧
-      toStatement (xformFuel (printStmt s)) (printStmt s) syn = (.ok s.unloc, syn) := by
-  refine ⟨strip_printStmt s hok, ?_⟩
-  cases s with
-  | importDecl sets l => exact C12More.importDecl_roundtrip_top sets hok syn
-  | expr e => exact C01More.transform_render_fuel _ syn hok
-  | definition df => exact C01More.transform_render_fuel _ syn hok
-  | syntaxDef _ _ _ => exact hok.elim
-  | libraryDef _ _ _ => exact hok.elim
-
-theorem printsAs_printStmt (syn : SynEnv) : ∀ (sts : List Statement),
-    (∀ s ∈ sts, okStmt (C01More.macroOf syn) s) → PrintsAs syn (sts.map printStmt) sts
-  | [], _ => trivial
-  | s :: ss, hok =>
-    ⟨printed_prints syn s (hok s (by simp)), printsAs_printStmt syn ss (fun s' hs' => hok s' (by simp [hs']))⟩
-
-theorem printsAs_strip (syn : SynEnv) : ∀ (ps : List Datum) (sts : List Statement),
-    PrintsAs syn ps sts → ps.map Datum.strip = ps
-  | [], [], _ => rfl
-  | p :: ps, s :: ss, h => by
-    simp only [List.map_cons, h.1.1, printsAs_strip syn ps ss h.2]
-  | [], _ :: _, h => h.elim
-  | _ :: _, [], h => h.elim
-
-theorem printsAs_length (syn : SynEnv) : ∀ (ps : List Datum) (sts : List Statement),
-    PrintsAs syn ps sts → ps.length = sts.length
-  | [], [], _ => rfl
-  | p :: ps, s :: ss, h => by simp [printsAs_length syn ps ss h.2]
-  | [], _ :: _, h => h.elim
-  | _ :: _, [], h => h.elim
-
-/-- data that are, up to locations, a way of writing `sts` are transformed into `sts` up to locations -/
-theorem readsAs_of_printsAs (syn : SynEnv) : ∀ (ds ps : List Datum) (sts : List Statement),
-    ds.map Datum.strip = ps → PrintsAs syn ps sts → ReadsAs syn ds sts
-  | [], [], [], _, _ => trivial
-  | d :: ds, p :: ps, s :: ss, hd, h => by
-    simp only [List.map_cons, List.cons.injEq] at hd
-    exact ⟨located_of_stripped hd.1 h.1.2, readsAs_of_printsAs syn ds ps ss hd.2 h.2⟩
-  | [], _ :: _, _, hd, _ => by simp at hd
-  | _ :: _, [], _, hd, _ => by simp at hd
-  | [], [], _ :: _, _, h => h.elim
-  | _ :: _, _ :: _, [], _, h => h.elim
-
-/-! ## the text of a sequence of location-free data is read as these data -/
-
-theorem supportedL_ofDatums : ∀ (ds : List Datum), (∀ d ∈ ds, SupportedD d) →
-    Syn.SupportedL (ds.map Syn.ofDatum)
-  | [], _ => trivial
-  | d :: ds, h => ⟨ofDatum_supported d (h d (by simp)), supportedL_ofDatums ds (fun d' hd' => h d' (by simp [hd']))⟩
-
-/-- C06 on the text of a sequence of data: under any valid layout the reader finds exactly these
-data, up to locations, and no error -/
-theorem forms_of_formsText (ps : List Datum) (layout : List (List Char))
-    (hsup : ∀ p ∈ ps, SupportedD p) (hl : ValidLayout (formsToks ps) layout) :
-    (formsOf (formsText ps layout)).1.map Datum.strip = ps.map Datum.strip ∧
-      (formsOf (formsText ps layout)).2 = none := by
-  obtain ⟨h1, h2⟩ := C06.read_render_many _ (supportedL_ofDatums ps hsup) layout hl
-  refine ⟨?_, h2⟩
-  unfold formsOf formsText formsToks
-  rw [h1, List.map_map]
-  apply List.map_congr_left
-  intro s hs
-  simp only [Function.comp]
-  rw [ofDatum_denote]
-
-/-! ## forms that read as statements run as these statements -/
-
-theorem evalForm_of_reads {fuel : Nat} {st : State} {d : Datum} {s' : Statement}
-    (h : toStatement (xformFuel d) d st.syn = (.ok s', st.syn)) :
-    evalForm fuel st d = evalAst fuel st s' := by
-  unfold evalForm
-  rw [h]
-
-theorem unlocList_cons (x : Statement) (xs : List Statement) :
-    Statement.unlocList (x :: xs) = x.unloc :: Statement.unlocList xs := by
-  simp [Statement.unlocList]
-
-
-/-! ## statements equal up to locations run alike up to locations -/
-
-theorem IU_eq_cases {α} {g : α → α} {x y : IRes α} (h : IU g x = IU g y) :
-    (∃ e₁ e₂ s₁ s₂, x = (.error e₁, s₁) ∧ y = (.error e₂, s₂) ∧ e₁.unloc = e₂.unloc ∧ s₁.unloc = s₂.unloc) ∨
-    (∃ a b s₁ s₂, x = (.ok a, s₁) ∧ y = (.ok b, s₂) ∧ g a = g b ∧ s₁.unloc = s₂.unloc) := by
-  obtain ⟨rx, sx⟩ := x
-  obtain ⟨ry, sy⟩ := y
-  simp only [IU, Prod.mk.injEq] at h
-  obtain ⟨h1, h2⟩ := h
-  cases rx with
-  | error e₁ =>
-    cases ry with
-    | error e₂ => exact .inl ⟨e₁, e₂, sx, sy, rfl, rfl, by simpa using h1, h2⟩
-    | ok b => cases h1
-  | ok a =>
-    cases ry with
-    | error e₂ => cases h1
-    | ok b => exact .inr ⟨a, b, sx, sy, rfl, rfl, by simpa using h1, h2⟩
-
-/-- one statement: same statement and same state up to locations, same outcome up to locations -/
-theorem evalAst_unloc_congr (fuel : Nat) {st₁ st₂ : State} {a b : Statement}
-    (hs : a.unloc = b.unloc) (hst : st₁.unloc = st₂.unloc) :
-    IU (Option.map Value.unloc) (evalAst fuel st₁ a) = IU (Option.map Value.unloc) (evalAst fuel st₂ b) := by
-  rw [← evalAst_unloc fuel st₁ a, ← evalAst_unloc fuel st₂ b, hs, hst]
-
-theorem runStmts_unloc (fuel : Nat) : ∀ (as bs : List Statement) (st₁ st₂ : State) (l₁ l₂ : Option Value),
-    Statement.unlocList as = Statement.unlocList bs → st₁.unloc = st₂.unloc →
-    l₁.map Value.unloc = l₂.map Value.unloc →
-    IU (Option.map Value.unloc) (runStmts fuel st₁ as l₁) = IU (Option.map Value.unloc) (runStmts fuel st₂ bs l₂)
-  | [], [], st₁, st₂, l₁, l₂, _, hst, hl => by simp only [runStmts, IU_ok, hst, hl]
-  | a :: as, b :: bs, st₁, st₂, l₁, l₂, h, hst, hl => by
-    rw [unlocList_cons, unlocList_cons] at h
-    simp only [List.cons.injEq] at h
-    rcases IU_eq_cases (evalAst_unloc_congr fuel h.1 hst) with
-      ⟨e₁, e₂, s₁, s₂, h1, h2, h3, h4⟩ | ⟨v₁, v₂, s₁, s₂, h1, h2, h3, h4⟩
-    · simp only [runStmts, h1, h2, IU_error, h3, h4]
-    · simp only [runStmts, h1, h2]
-      exact runStmts_unloc fuel as bs s₁ s₂ v₁ v₂ h.2 h4 h3
-  | [], _ :: _, _, _, _, _, h, _, _ => by simp [Statement.unlocList] at h
-  | _ :: _, [], _, _, _, _, h, _, _ => by simp [Statement.unlocList] at h
-
-/-! ## facts about `runStmts` -/
-
-theorem runStmts_append (fuel : Nat) (pre rest : List Statement) : ∀ (st : State) (last : Option Value),
-    runStmts fuel st (pre ++ rest) last =
-      match runStmts fuel st pre last with
-      | (.error e, st') => (.error e, st')
-      | (.ok v, st') => runStmts fuel st' rest v := by
-  induction pre with
-  | nil => intro st last; rfl
-  | cons s ss ih =>
-    intro st last
-    simp only [List.cons_append, runStmts]
-    generalize evalAst fuel st s = y
-    obtain ⟨r, st'⟩ := y
-    cases r with
-    | error e => rfl
-    | ok v => exact ih st' v
-
-
-/-- the text of a way of writing `sts` reads as `sts` -/
-theorem formsText_readsAs (syn : SynEnv) (ps : List Datum) (sts : List Statement) (layout : List (List Char))
-    (hp : PrintsAs syn ps sts) (hsup : ∀ p ∈ ps, SupportedD p) (hl : ValidLayout (formsToks ps) layout) :
-    (formsOf (formsText ps layout)).2 = none ∧ ReadsAs syn (formsOf (formsText ps layout)).1 sts := by
-  obtain ⟨h1, h2⟩ := forms_of_formsText ps layout hsup hl
-  rw [printsAs_strip syn ps sts hp] at h1
-  exact ⟨h2, readsAs_of_printsAs syn _ ps sts h1 hp⟩
-
-
-/-! further verbatim copies (`sed -n 353,374p; 506,511p; 533,538p; 551,564p`): `astInner`, `astPost`,
-`evalAst_eq`, `CoreShape`, `coreShape_of_core`, `coreShape_of_unloc`, `astInner_core` -/
-
-/-- the part of `eval_ast` that takes fuel -/
-def astInner (fuel : Nat) (st : State) (s : Statement) : Except SErr (Option Value) × State :=
-  if !st.importEnd then
-    match s with
-    | .importDecl sets _ =>
-      match evalImport fuel st sets st.env with
-      | (.ok (), st) => (.ok none, st)
-      | (.error e, st) => (.error e, st)
-    | .libraryDef _ _ loc => (.error (.syntax, loc), st)
-    | other => evalExprOrDef fuel { st with importEnd := true } other st.env
-  else evalExprOrDef fuel st s st.env
-
-def astPost (s : Statement) (x : Except SErr (Option Value) × State) : Except SErr (Option Value) × State :=
-  match x.1 with
-  | .ok v => (.ok v, x.2)
-  | .error (e, loc) => (.error (e, loc.orElse (fun _ => s.loc)), x.2)
-
-theorem evalAst_eq (fuel : Nat) (st : State) (s : Statement) :
-    evalAst fuel st s = astPost s (astInner fuel st s) := by
-  unfold evalAst astPost astInner
-  rfl
-
-/-- a top-level expression or definition -/
-def CoreShape : Statement → Prop
-  | .expr _ => True
-  | .definition _ => True
-  | _ => False
-
-theorem coreShape_of_core {M : String → Bool} {s : Statement} (h : coreStmt M s = true) : CoreShape s := by
-  cases s <;> first | trivial | simp [coreStmt] at h
-
-theorem coreShape_of_unloc {a b : Statement} (h : a.unloc = b.unloc) (hb : CoreShape b) : CoreShape a := by
-  cases b <;> first | exact hb.elim | (cases a <;> first | trivial | simp [Statement.unloc] at h)
-
-theorem astInner_core (fuel : Nat) (st : State) (s : Statement) (hs : CoreShape s) :
-    ∃ st0 : State, st0.store = st.store ∧ astInner fuel st s = evalExprOrDef fuel st0 s st.env := by
-  unfold astInner
-  by_cases hi : st.importEnd = true
-  · simp only [hi, Bool.not_true, Bool.false_eq_true, if_false]
-    exact ⟨st, rfl, rfl⟩
-  · simp only [hi, Bool.not_false, if_true]
-    cases s with
-    | expr e => exact ⟨{ st with importEnd := true }, rfl, rfl⟩
-    | definition d => exact ⟨{ st with importEnd := true }, rfl, rfl⟩
-    | importDecl _ _ => exact hs.elim
-    | syntaxDef _ _ _ => exact hs.elim
-    | libraryDef _ _ _ => exact hs.elim
-
+open Ruschm.ProgramText
+open Ruschm.LibNamePos (NoLib evalAst_noLib noLib_nil)
 
 /-! # positions and extents -/
 
@@ -775,18 +445,18 @@ theorem readsAs_append (syn : SynEnv) : ∀ (d₁ d₂ : List Datum) (s₁ s₂ 
 /-- THE SUCCESSFUL PREFIX: forms `dpre` that read as the statements `pre`, run from a state `st` that
 is `st₀` up to locations, succeed when `pre` succeeds from `st₀`; the state reached is the one `pre`
 reaches up to locations, has the same syntax environment, and holds positions of `T` (those `st` held)
-and of the data `dpre` only -/
+and of the data `dpre` only — and none in the role of a library name, if `st` held none -/
 theorem runForms_prefix (fuel : Nat) : ∀ (dpre : List Datum) (pre : List Statement) (st₀ st : State)
     (last₀ last v : Option Value) (st₁ : State) (T : List Pos),
-    ReadsAs st.syn dpre pre → st.unloc = st₀.unloc → LocsIn T st →
+    ReadsAs st.syn dpre pre → st.unloc = st₀.unloc → LocsIn T st → NoLib st.rlocs →
     runStmts fuel st₀ pre last₀ = (.ok v, st₁) →
     ∃ v' st₁', runForms fuel st dpre last = (.ok v', st₁') ∧ st₁'.unloc = st₁.unloc ∧ st₁'.syn = st.syn ∧
-      LocsIn (T ++ dpre.flatMap (fun d => locs d)) st₁'
-  | [], [], st₀, st, last₀, last, v, st₁, T, _, hu, hT, hrun => by
+      LocsIn (T ++ dpre.flatMap (fun d => locs d)) st₁' ∧ NoLib st₁'.rlocs
+  | [], [], st₀, st, last₀, last, v, st₁, T, _, hu, hT, hN, hrun => by
     simp only [runStmts, Prod.mk.injEq, Except.ok.injEq] at hrun
     obtain ⟨-, rfl⟩ := hrun
-    exact ⟨last, st, rfl, hu, rfl, by simpa using hT⟩
-  | d :: ds, s :: ss, st₀, st, last₀, last, v, st₁, T, hr, hu, hT, hrun => by
+    exact ⟨last, st, rfl, hu, rfl, by simpa using hT, hN⟩
+  | d :: ds, s :: ss, st₀, st, last₀, last, v, st₁, T, hr, hu, hT, hN, hrun => by
     obtain ⟨⟨s', h1, h2⟩, hrest⟩ := hr
     rw [runStmts] at hrun
     cases hx0 : evalAst fuel st₀ s with
@@ -803,19 +473,19 @@ theorem runForms_prefix (fuel : Nat) : ∀ (dpre : List Datum) (pre : List State
           cases k2
           have hsyn : s₁.syn = st.syn := (evalAst_out k1).2.1
           have hloc := evalAst_state_locs h1 hT k1
-          obtain ⟨v', st₁', g1, g2, g3, g4⟩ := runForms_prefix fuel ds ss st₀' s₁ v0 a v st₁ (T ++ locs d)
-            (hsyn ▸ hrest) k4 hloc hrun
-          refine ⟨v', st₁', ?_, g2, g3.trans hsyn, ?_⟩
+          obtain ⟨v', st₁', g1, g2, g3, g4, g5⟩ := runForms_prefix fuel ds ss st₀' s₁ v0 a v st₁ (T ++ locs d)
+            (hsyn ▸ hrest) k4 hloc (evalAst_noLib k1 hN) hrun
+          refine ⟨v', st₁', ?_, g2, g3.trans hsyn, ?_, g5⟩
           · simp only [runForms, evalForm_of_reads h1, k1, g1]
           · simpa [List.flatMap_cons, List.append_assoc] using g4
-  | [], _ :: _, _, _, _, _, _, _, _, h, _, _, _ => h.elim
-  | _ :: _, [], _, _, _, _, _, _, _, h, _, _, _ => h.elim
+  | [], _ :: _, _, _, _, _, _, _, _, h, _, _, _, _ => h.elim
+  | _ :: _, [], _, _, _, _, _, _, _, h, _, _, _, _ => h.elim
 
 /-- THE FAILING FORM.  Forms `dpre ++ d :: dpost` that read as `pre ++ s :: post`, run from a state
 without positions: when `pre` succeeds (leaving `st₁`) and `s` fails in `st₁` with kind `e`, the run of
 the forms is the failure, with kind `e` and at a position `l` (there is one: `d` is located), of the
 statement `s'` made from `d` (`s` up to locations) in a state `st₁'` (`st₁` up to locations) that holds
-positions of the EARLIER data `dpre` only. -/
+positions of the EARLIER data `dpre` only, none of them in the role of a library name. -/
 theorem runForms_fails_at (fuel : Nat) (dpre dpost : List Datum) (d : Datum) (pre post : List Statement)
     (s : Statement) (st st₁ st₂ : State) (v : Option Value) (e : Err) (loc : Loc)
     (hst : locs st = []) (hlen : dpre.length = pre.length)
@@ -824,10 +494,17 @@ theorem runForms_fails_at (fuel : Nat) (dpre dpost : List Datum) (d : Datum) (pr
     ∃ s' st₁' l st₂', toStatement (xformFuel d) d st.syn = (.ok s', st.syn) ∧ s'.unloc = s.unloc ∧
       st₁'.unloc = st₁.unloc ∧ LocsIn (dpre.flatMap (fun d => locs d)) st₁' ∧
       evalAst fuel st₁' s' = (.error (e, some l), st₂') ∧ st₂'.unloc = st₂.unloc ∧
-      runForms fuel st (dpre ++ d :: dpost) none = (.error (e, some l), st₂') := by
+      runForms fuel st (dpre ++ d :: dpost) none = (.error (e, some l), st₂') ∧ NoLib st₁'.rlocs := by
   obtain ⟨hr1, hr2⟩ := readsAs_append st.syn dpre (d :: dpost) pre (s :: post) hlen hr
   have hT : LocsIn [] st := by intro l hl; rw [hst] at hl; exact hl
-  obtain ⟨v', st₁', g1, g2, g3, g4⟩ := runForms_prefix fuel dpre pre st st none none v st₁ [] hr1 rfl hT hpre
+  have hN : NoLib st.rlocs := by
+    have : st.rlocs = [] := unrole_eq_nil (by
+      intro l hl
+      have : l ∈ locs st := hl
+      rw [hst] at this
+      exact this)
+    rw [this]; exact noLib_nil
+  obtain ⟨v', st₁', g1, g2, g3, g4, g5⟩ := runForms_prefix fuel dpre pre st st none none v st₁ [] hr1 rfl hT hN hpre
   rw [List.nil_append] at g4
   obtain ⟨⟨s', h1, h2⟩, -⟩ := hr2
   have h1' : toStatement (xformFuel d) d st₁'.syn = (.ok s', st₁'.syn) := by rw [g3]; exact h1
@@ -844,7 +521,7 @@ theorem runForms_fails_at (fuel : Nat) (dpre dpost : List Datum) (d : Datum) (pr
       cases loc' with
       | none => exact absurd rfl hne
       | some l => exact ⟨l, rfl⟩
-    refine ⟨s', st₁', l, s₁, h1, h2, g2, g4, k1, k4, ?_⟩
+    refine ⟨s', st₁', l, s₁, h1, h2, g2, g4, k1, k4, ?_, g5⟩
     rw [runForms_append, g1]
     simp only [runForms, evalForm_of_reads h1', k1]
   · rw [hfail] at k2; cases k2
@@ -887,7 +564,8 @@ theorem formTokLocs_within (pre post : List Statement) (s : Statement) (layout :
 /-- THE TEXT-LEVEL COMPOSITION used by `C15More`: the run of the text of `pre ++ s :: post`, when `pre`
 succeeds and `s` fails with kind `e`, IS the failure — kind `e`, a position `l` — of a statement `s'`
 (`s` up to locations) made from a datum `d` whose positions are positions of the tokens of form `|pre|`,
-in a state `st₁'` (`st₁` up to locations) whose positions are positions of tokens of the earlier forms -/
+in a state `st₁'` (`st₁` up to locations) whose positions are positions of tokens of the earlier forms, none
+of them in the role of a library name -/
 theorem text_fails_at (fuel : Nat) (st st₁ st₂ : State) (pre post : List Statement) (s : Statement)
     (v : Option Value) (e : Err) (loc : Loc) (layout : List (List Char))
     (hst : locs st = [])
@@ -900,7 +578,8 @@ theorem text_fails_at (fuel : Nat) (st st₁ st₂ : State) (pre post : List Sta
       toStatement (xformFuel d) d st.syn = (.ok s', st.syn) ∧ s'.unloc = s.unloc ∧ d.HL ∧
       st₁'.unloc = st₁.unloc ∧ evalAst fuel st₁' s' = (.error (e, some l), st₂') ∧
       (∀ q ∈ locs d, q ∈ formTokLocs pre s layout) ∧
-      (∀ q ∈ locs st₁', q ∈ tokLocs (locate (programToks pre) layout (1, 1))) := by
+      (∀ q ∈ locs st₁', q ∈ tokLocs (locate (programToks pre) layout (1, 1))) ∧
+      NoLib st₁'.rlocs := by
   have hp := printsAs_printStmt st.syn _ hok
   have hsup' : ∀ p ∈ (pre ++ s :: post).map printStmt, SupportedD p := by
     intro p hp'
@@ -921,9 +600,9 @@ theorem text_fails_at (fuel : Nat) (st st₁ st₂ : State) (pre post : List Sta
     change (formsOf (programText (pre ++ s :: post) layout)).2 = none at herr
     change (formsOf (programText (pre ++ s :: post) layout)).1 = _ at hds
     rw [hds] at hreads
-    obtain ⟨s', st₁', l, st₂', g1, g2, g3, g4, g5, g6, g7⟩ :=
+    obtain ⟨s', st₁', l, st₂', g1, g2, g3, g4, g5, g6, g7, g8⟩ :=
       runForms_fails_at fuel dpre dpost d pre post s st st₁ st₂ v e loc hst hlen' hreads hHL hpre hfail
-    refine ⟨d, s', st₁', l, st₂', ?_, g6, g1, g2, hHL, g3, g5, hdl, ?_⟩
+    refine ⟨d, s', st₁', l, st₂', ?_, g6, g1, g2, hHL, g3, g5, hdl, ?_, g8⟩
     · rw [evalText_eq_runText]
       unfold runText
       rw [hds, g7]
@@ -945,7 +624,7 @@ theorem text_fails_located (fuel : Nat) (st st₁ st₂ : State) (pre post : Lis
         ((e = .unbound ∨ e = .nonProcedure ∨ e = .cyclic ∨ e = .libNotFound) ∧
           ∃ j, j < pre.length ∧ Within (extent (pre ++ s :: post) layout j) l) ∨
         C15.LibReadErr (e, some l)) := by
-  obtain ⟨d, s', st₁', l, st₂', g1, g2, g3, g4, g5, g6, g7, g8, g9⟩ :=
+  obtain ⟨d, s', st₁', l, st₂', g1, g2, g3, g4, g5, g6, g7, g8, g9, -⟩ :=
     text_fails_at fuel st st₁ st₂ pre post s v e loc layout hst hok hsup hl hpre hfail
   have htoks := programToks_supported _ hsup
   rw [programToks_append, programToks_cons] at htoks
